@@ -62,7 +62,7 @@ enum ProbeId {
   PR_GROWTH = 0, PR_AT_CAPACITY, PR_BUILTIN_FULL, PR_READ_FAIL_AFTER_ONE, PR_OOM_HANDLED, PR_OOM_SWALLOWED,
   PR_FRACTION_PARSED_IN_COMMA_LOCALE, PR_ERR_ALIVE_10, PR_PREEMPT_VISIBLE, PR_DUP_REJECTED, PR_READ_OK_MULTI, PR_COPY_MUTATED,
   PR_READ_SHORT_OK, PR_NESTED_FORMULA, PR_NIST_FALLBACK, PR_ERR_PROPAGATED, PR_SHARED_CRYSTAL_2TASKS, PR_READ_EIO,
-  PR_READ_TRUNC_REJECT, PR_ARRAY_ZERO_CAP, PR_PARSE_UNDER_TLOC, PR_PARSE_FAIL_UNDER_TLOC, PR_READFILE_UNDER_TLOC, PR_N
+  PR_READ_TRUNC_REJECT, PR_ARRAY_ZERO_CAP, PR_PARSE_UNDER_TLOC, PR_PARSE_FAIL_UNDER_TLOC, PR_READFILE_UNDER_TLOC, PR_LAYOUT_VARIANT_ACCEPTED, PR_LAYOUT_VARIANT_REJECTED, PR_N
 };
 extern const char* const kProbeNames[PR_N];
 
